@@ -110,7 +110,117 @@ Theorem C10_kernels_config_invariant :
 Proof. exact kernels_config_invariant. Qed.
 Print Assumptions C10_kernels_config_invariant.
 
-(* NOT CLAIMED (stated in DESIGN.md section 4 / C10, left to the direct oracle of harness/c10.py):
-   C10_btb_paths   : _numba_btb_bty accumulation = sparse B'WB product path (PSpline.solve_pspline);
-   C10_beads_bands : _numba_banded_dot_banded = banded product with symmetric completion, hence
-                     _banded_beads and _sparse_beads assemble the same systems. *)
+(* ------------------------------------------------------------------------------------------------
+   C10_btb_paths.  PSpline.solve_pspline (model: C07/Model.v, both `ab` assembly paths) over ANY
+   commutative ring: numba path = bands accumulated by _numba_btb_bty (+ _lower_to_full when the
+   system is not lower), fallback = scipy.sparse product -> _sparse_to_banded -> ab[len(ab) // 2:]
+   (whose band count is whatever non-zero bands the product has).  For any two PSpline objects on the
+   same basis whose penalty arrays denote the same matrix Q -- each in the layout of its own `lower`
+   flag, i.e. banded_solver < 4 or = 4 -- and either path on either side, the calls are well formed
+   and denote the SAME matrix B'WB + Q and right-hand side B'Wy (+ rhs_extra). *)
+(* imported here, after the theorems above, because C07.Model re-uses names of C10.Model (call, den, ...) *)
+From PB Require Import C07.Model C07.Proofs C10.Btb C10.BeadsModel C10.BeadsProofs.
+Module M7 := PB.C07.Model.
+Module P7 := PB.C07.Proofs.
+
+Theorem C10_btb_paths : forall O : M7.ops,
+  ring_theory (M7.zero O) (M7.one O) (M7.add O) (M7.mul O) (M7.sub O) (M7.opp O) eq ->
+  (forall x : M7.T O, M7.is0 O x = true -> x = M7.zero O) ->
+  forall (M : nat) (k : Z) (n : nat) (B : Z -> Z -> M7.T O) (left : Z -> Z),
+  0 <= k ->
+  (forall i c : Z, 0 <= i < Z.of_nat n -> c < left i - k \/ left i < c -> B i c = M7.zero O) ->
+  forall (s1 s2 : M7.ps O) (numba1 numba2 : bool) (w y : Z -> M7.T O)
+    (rhs_extra : option (Z -> M7.T O)) (u1 u2 : Z) (Q : Z -> Z -> M7.T O),
+  M7.p_M s1 = M -> M7.p_k s1 = k -> M7.p_M s2 = M -> M7.p_k s2 = k ->
+  P7.Rep O M (M7.p_lower s1) (M7.p_pen s1) u1 Q ->
+  P7.Rep O M (M7.p_lower s2) (M7.p_pen s2) u2 Q ->
+  exists c1 c2 : M7.call O,
+    M7.solve_pspline O s1 numba1 n B w y None rhs_extra = Some c1 /\
+    M7.solve_pspline O s2 numba2 n B w y None rhs_extra = Some c2 /\
+    M7.call_wf O (Z.of_nat M) c1 = true /\ M7.call_wf O (Z.of_nat M) c2 = true /\
+    (forall i j : Z, P7.inR M i -> P7.inR M j ->
+       M7.den O c1 i j = M7.den O c2 i j /\
+       M7.den O c1 i j = M7.add O (M7.btwb O n B w i j) (Q i j)) /\
+    (forall r : Z, M7.k_rhs c1 r = M7.k_rhs c2 r).
+Proof. exact C10.Btb.solve_pspline_paths. Qed.
+Print Assumptions C10_btb_paths.
+
+(* the systems _setup_spline builds under two configurations: allow_lower and banded_solver < 4 (the
+   expression translated from the source, sp_allow_lower), numba importable or not *)
+Theorem C10_pspline_config_invariant : forall O : M7.ops,
+  ring_theory (M7.zero O) (M7.one O) (M7.add O) (M7.mul O) (M7.sub O) (M7.opp O) eq ->
+  (forall x : M7.T O, M7.is0 O x = true -> x = M7.zero O) ->
+  M7.ofZ O 0 = M7.zero O ->
+  forall (M : nat) (k : Z) (n : nat) (B : Z -> Z -> M7.T O) (left : Z -> Z),
+  0 <= k ->
+  (forall i c : Z, 0 <= i < Z.of_nat n -> c < left i - k \/ left i < c -> B i c = M7.zero O) ->
+  forall (b1 b2 : Z) (numba1 numba2 al : bool) (lam : M7.T O) (d : nat) (w y : Z -> M7.T O),
+  (1 <= d < M)%nat ->
+  exists (s1 s2 : M7.ps O) (c1 c2 : M7.call O),
+    M7.pspline_init O k M lam d (C10.Btb.ps_allow_lower b1 al) false = Some s1 /\
+    M7.pspline_init O k M lam d (C10.Btb.ps_allow_lower b2 al) false = Some s2 /\
+    M7.solve_pspline O s1 numba1 n B w y None None = Some c1 /\
+    M7.solve_pspline O s2 numba2 n B w y None None = Some c2 /\
+    M7.k_lower c1 = C10.Btb.ps_allow_lower b1 al /\ M7.k_lower c2 = C10.Btb.ps_allow_lower b2 al /\
+    M7.call_wf O (Z.of_nat M) c1 = true /\ M7.call_wf O (Z.of_nat M) c2 = true /\
+    (forall i j : Z, P7.inR M i -> P7.inR M j ->
+       M7.den O c1 i j = M7.den O c2 i j /\
+       M7.den O c1 i j = M7.add O (M7.btwb O n B w i j) (P7.Pq O M d lam i j)) /\
+    (forall r : Z, M7.k_rhs c1 r = M7.k_rhs c2 r /\ M7.k_rhs c1 r = M7.bty O n B w y r).
+Proof. exact C10.Btb.pspline_config_invariant. Qed.
+Print Assumptions C10_pspline_config_invariant.
+
+(* banded_solver = 4 really gives a different object (full bands), < 4 lower bands *)
+Example C10_pspline_config_nonvacuous :
+  C10.Btb.ps_allow_lower 4 true = false /\ C10.Btb.ps_allow_lower 2 true = true.
+Proof. split; reflexivity. Qed.
+
+(* ------------------------------------------------------------------------------------------------
+   C10_beads_bands.  _numba_banded_dot_banded (the numba kernel of beads; loop nest pinned by the
+   translator) as an index function with Python's negative-row wrap: for EVERY n and all band counts,
+   including a_upper + b_upper > n - 1, each cell of the zero-initialised output is the entry of the
+   matrix product of the two band matrices, or 0 where the loops do not go. *)
+Module BM := PB.C10.BeadsModel.
+
+Theorem C10_beads_kernel : forall (a b : arr) (al au bl bu n lb rows row col : Z),
+  0 <= n -> 0 <= au -> 0 <= bu -> 0 <= row < rows -> 0 <= col < n ->
+  let cu := BM.c_upper au bu n in
+  get (BM.kernel a b al au bl bu cu n lb rows) row col =
+  if (row - cu <=? lb) && (0 <=? col + (row - cu)) && (col + (row - cu) <? n)
+  then BM.prod a b al au bl bu n (col + (row - cu)) col else 0.
+Proof. exact C10.BeadsProofs.kernel_spec. Qed.
+Print Assumptions C10_beads_kernel.
+
+(* _banded_dot_banded(symmetric_output=False) (A @ D in beads): LAPACK general band storage of A @ B
+   with the clamped band counts, zero corners *)
+Theorem C10_beads_product_full : forall (a b : arr) (al au bl bu i j : Z),
+  let n := nc a in
+  0 <= al -> 0 <= au -> 0 <= bl -> 0 <= bu -> 0 <= i < n -> 0 <= j < n ->
+  - BM.c_upper au bu n <= i - j <= BM.c_lower al bl n ->
+  get (BM.banded_dot_banded a b al au bl bu false) (BM.c_upper au bu n + i - j) j = BM.prod a b al au bl bu n i j.
+Proof. exact C10.BeadsProofs.banded_dot_banded_full. Qed.
+Print Assumptions C10_beads_product_full.
+
+(* _banded_dot_banded(symmetric_output=True) (B @ B and (A D) @ A in beads): only the upper bands are
+   computed, the completion loop `output[-row, :-offset] = output[row - 1, offset:]` mirrors them; the
+   result is the full band storage of the symmetric product.
+   PARTIAL in one respect: stated for a_lower + b_lower = a_upper + b_upper <= n - 1 (beads: 2 filter_type
+   resp. 2 filter_type + 2 bands, so n >= 2 filter_type + 3); for more bands than n - 1 the completion
+   loop indexes from the bottom of a clamped array (a TODO in the source) and is not claimed. *)
+Theorem C10_beads_bands_partial : forall (a b : arr) (al au bl bu i j : Z),
+  let n := nc a in
+  let u := au + bu in
+  0 <= al -> 0 <= au -> 0 <= bl -> 0 <= bu -> al + bl = u -> u <= n - 1 ->
+  (forall p q, 0 <= p < n -> 0 <= q < n -> BM.prod a b al au bl bu n p q = BM.prod a b al au bl bu n q p) ->
+  0 <= i < n -> 0 <= j < n -> Z.abs (i - j) <= u ->
+  get (BM.banded_dot_banded a b al au bl bu true) (u + i - j) j = BM.prod a b al au bl bu n i j.
+Proof. exact C10.BeadsProofs.banded_dot_banded_sym. Qed.
+Print Assumptions C10_beads_bands_partial.
+(* full statement (not proved): the same without `u <= n - 1`, with rows = c_lower + c_upper + 1 clamped. *)
+
+(* the sparse path computes the same products with scipy.sparse (library, trusted to be the matrix
+   product); every other statement of _banded_beads / _sparse_beads (weights, gamma, penalty rows, cost) is
+   textually identical in the two functions: checked by tools/gen_c10.py on every run, which refuses
+   to translate otherwise. *)
+Example C10_beads_translated_nonvacuous : beads_kernel_is_modelled = true /\ 0 < beads_shared_statements.
+Proof. split; reflexivity. Qed.
